@@ -222,18 +222,23 @@ func runCtor(c CtorCase) (pbt.Outcome, error) {
 		}
 	case "pairs":
 		if c.DSpec != nil {
-			spec := make(tally.DurationBuckets, len(c.DSpec))
+			// the slice has 0..2 spare slots behind it (holding -7), which belong to the caller as well
+			spec := make(tally.DurationBuckets, len(c.DSpec), len(c.DSpec)+len(c.DSpec)%3)
 			for i, d := range c.DSpec {
 				spec[i] = time.Duration(d)
 			}
-			before := append(tally.DurationBuckets(nil), spec...)
+			for i := len(spec); i < cap(spec); i++ {
+				spec[:cap(spec)][i] = -7
+			}
+			before := append(tally.DurationBuckets(nil), spec[:cap(spec)]...)
 			pairs := tally.BucketPairs(spec)
 			for i := range before {
-				if before[i] != spec[i] {
-					errs.Addf("BucketPairs modified the caller's duration slice: %v -> %v", before, spec)
+				if before[i] != spec[:cap(spec)][i] {
+					errs.Addf("BucketPairs modified the caller's duration slice (or the spare capacity behind it): %v -> %v", before, spec[:cap(spec)])
 					break
 				}
 			}
+			before = before[:len(spec)]
 			want := model.DurationPairs(before)
 			if len(pairs) != len(want) {
 				errs.Addf("BucketPairs(%v): %d pairs, want %d", before, len(pairs), len(want))
@@ -247,18 +252,22 @@ func runCtor(c CtorCase) (pbt.Outcome, error) {
 			}
 			out.NonTrivial = len(spec) >= 2
 		} else {
-			spec := make(tally.ValueBuckets, len(c.Spec))
+			spec := make(tally.ValueBuckets, len(c.Spec), len(c.Spec)+len(c.Spec)%3)
 			for i, f := range c.Spec {
 				spec[i] = f.V()
 			}
-			before := append(tally.ValueBuckets(nil), spec...)
+			for i := len(spec); i < cap(spec); i++ {
+				spec[:cap(spec)][i] = -7.25
+			}
+			before := append(tally.ValueBuckets(nil), spec[:cap(spec)]...)
 			pairs := tally.BucketPairs(spec)
 			for i := range before {
-				if math.Float64bits(before[i]) != math.Float64bits(spec[i]) {
-					errs.Addf("BucketPairs modified the caller's value slice: %v -> %v", before, spec)
+				if math.Float64bits(before[i]) != math.Float64bits(spec[:cap(spec)][i]) {
+					errs.Addf("BucketPairs modified the caller's value slice (or the spare capacity behind it): %v -> %v", before, spec[:cap(spec)])
 					break
 				}
 			}
+			before = before[:len(spec)]
 			want := model.ValuePairs(before)
 			if len(pairs) != len(want) {
 				errs.Addf("BucketPairs(%v): %d pairs, want %d", before, len(pairs), len(want))
@@ -298,10 +307,65 @@ type HSpec struct {
 type CacheCase struct {
 	Cached bool    `json:"cached"`
 	Hists  []HSpec `json:"hists"`
+	// Layout: where the bucket slices handed to Histogram() live. 0: each in its own exactly-sized
+	// slice; 1: consecutive pieces of one array per kind, each with capacity up to the array's end
+	// (fine[:5] next to the rest of fine: writing one element past a slice's length lands in the
+	// next histogram's bounds); 2: each in its own slice with three spare slots holding other numbers
+	Layout int `json:"layout,omitempty"`
+}
+
+// materialize builds all bucket slices up front (before any Histogram call) according to the layout
+// and returns them together with the arenas whose whole capacity must stay untouched.
+func (c CacheCase) materialize() (specs []tally.Buckets, arenaV []float64, arenaD []time.Duration) {
+	if c.Layout == 0 {
+		for _, h := range c.Hists {
+			specs = append(specs, h.buckets())
+		}
+		return
+	}
+	nv, nd := 8, 8
+	for _, h := range c.Hists {
+		nv += len(h.V) + 3
+		nd += len(h.D) + 3
+	}
+	arenaV, arenaD = make([]float64, nv), make([]time.Duration, nd)
+	for i := range arenaV {
+		arenaV[i] = -7.25
+	}
+	for i := range arenaD {
+		arenaD[i] = -7
+	}
+	av, ad := 0, 0
+	for _, h := range c.Hists {
+		if h.Dur {
+			sl := arenaD[ad : ad+len(h.D)]
+			for i, x := range h.D {
+				sl[i] = time.Duration(x)
+			}
+			ad += len(h.D)
+			if c.Layout == 2 {
+				sl = sl[: len(sl) : len(sl)+3]
+				ad += 3
+			}
+			specs = append(specs, tally.DurationBuckets(sl))
+		} else {
+			sl := arenaV[av : av+len(h.V)]
+			for i, x := range h.V {
+				sl[i] = x.V()
+			}
+			av += len(h.V)
+			if c.Layout == 2 {
+				sl = sl[: len(sl) : len(sl)+3]
+				av += 3
+			}
+			specs = append(specs, tally.ValueBuckets(sl))
+		}
+	}
+	return
 }
 
 func genCache(t *rapid.T) CacheCase {
-	c := CacheCase{Cached: rapid.Bool().Draw(t, "cached")}
+	c := CacheCase{Cached: rapid.Bool().Draw(t, "cached"), Layout: rapid.SampledFrom([]int{0, 0, 1, 1, 2}).Draw(t, "layout")}
 	// base set
 	nb := rapid.IntRange(1, 5).Draw(t, "nbase")
 	base := make([]uint64, nb) // bit patterns / nanoseconds
@@ -588,8 +652,10 @@ func runCache(c CacheCase) (pbt.Outcome, error) {
 	scopes := []tally.Scope{root, root.SubScope("s1"), root.Tagged(map[string]string{"t": "1"})}
 	prefixes := []string{"", "s1.", ""}
 	names := make([]string, len(c.Hists))
+	specs, arenaV, arenaD := c.materialize()
+	arenaV0, arenaD0 := append([]float64(nil), arenaV...), append([]time.Duration(nil), arenaD...)
 	for i, h := range c.Hists {
-		spec := h.buckets()
+		spec := specs[i]
 		var before tally.Buckets
 		if h.Dur {
 			before = append(tally.DurationBuckets(nil), spec.(tally.DurationBuckets)...)
@@ -611,9 +677,15 @@ func runCache(c CacheCase) (pbt.Outcome, error) {
 		}
 	}
 	tally.VerifReportOnce(root)
+	if fmt.Sprint(arenaV0) != fmt.Sprint(arenaV) || fmt.Sprint(arenaD0) != fmt.Sprint(arenaD) {
+		errs.Addf("Histogram() wrote into the caller's memory next to a bucket slice (layout %d): values %v -> %v, durations %v -> %v", c.Layout, arenaV0, arenaV, arenaD0, arenaD)
+	}
 	ev := log.Events()
 	for i, h := range c.Hists {
 		checkHist(&errs, names[i], h, ev, c.Cached)
+	}
+	if c.Layout != 0 {
+		out.Classes = append(out.Classes, fmt.Sprintf("layout=%d", c.Layout))
 	}
 	// non-trivial: two different specs with equal cache identity under one root
 	for i := range c.Hists {
